@@ -1,7 +1,7 @@
 CONSTANTS
   Variant = "ok"
   MaxMoves = 2
-  CfgSel = {"weekly", "oneshot", "workday", "yearly"}
+  CfgSel = {"weekly", "oneshot", "workday"}
 SPECIFICATION MSpec
 CONSTRAINT Bound
 VIEW View
